@@ -5,8 +5,8 @@ From Coq Require Import Lia ZifyBool ZifyNat.
 
 Ltac simp_r :=
   cbn [r_method r_rawquery r_headers r_cookies r_form r_query r_body r_getbody r_reader r_unreplayable r_attempt
-       r_path r_pparams r_ordered
-       set_headers set_cookies set_form set_body set_reader set_attempt].
+       r_path r_pparams r_ordered r_marshal
+       set_headers set_cookies set_form set_body set_reader set_attempt set_marshal].
 
 Definition refused (ro : option ropt) (s : rstate) : bool :=
   match ro with
@@ -125,7 +125,7 @@ Qed.
 
 Lemma prep_body_cookies X : r_cookies (prep_body detect c X) = r_cookies X.
 Proof.
-  unfold prep_body, prep_body_gen, detect_stage. destruct X as [m rq h ck f q bd gb rd un at_ pa pp od]. simp_r.
+  unfold prep_body, prep_body_gen, detect_stage, marshal_stage. destruct X as [m rq h ck f q bd gb rd un at_ pa pp od ms]. simp_r.
   repeat match goal with
          | |- context [if ?b then _ else _] => destruct b; simp_r
          | |- context [match ?b with Some _ => _ | None => _ end] => destruct b; simp_r
@@ -146,19 +146,47 @@ Qed.
 (* without form data the body on the wire is the caller's complete body *)
 Theorem first_wire_body s :
   payload_forbid c (r_method s) = false -> c_form c = [] -> r_form s = [] -> r_ordered s = [] ->
+  r_marshal s = None ->
   w_body (wire_of c (prepare detect c s)) = body_now s.
 Proof.
-  intros Hf Hcf Hrf Hod. unfold wire_of. cbn [w_body]. unfold prepare.
+  intros Hf Hcf Hrf Hod Hms. unfold wire_of. cbn [w_body]. unfold prepare.
   set (s1 := prep_cookie c (prep_header c s)).
   assert (H1 : r_method s1 = r_method s /\ r_form s1 = r_form s /\ r_getbody s1 = r_getbody s /\
-               r_reader s1 = r_reader s /\ r_ordered s1 = r_ordered s).
+               r_reader s1 = r_reader s /\ r_ordered s1 = r_ordered s /\ r_marshal s1 = r_marshal s).
   { unfold s1, prep_cookie, prep_header. destruct (nonempty (c_cookies c) && _); simp_r; repeat split. }
-  destruct H1 as (Em & Efm & Eg & Er & Eo).
-  unfold prep_body, prep_body_gen, detect_stage. rewrite Em, Hf, Hcf. cbn [nonempty andb].
+  destruct H1 as (Em & Efm & Eg & Er & Eo & Ems).
+  unfold prep_body, prep_body_gen. rewrite Em, Hf, Hcf. cbn [nonempty andb].
   rewrite Eo, Hod, Efm, Hrf. cbn [nonempty].
-  unfold body_now.
-  destruct (r_body s1); [|rewrite Eg, Er; reflexivity].
-  repeat match goal with |- context [if ?b then _ else _] => destruct b end; simp_r; rewrite ?Eg, ?Er; reflexivity.
+  assert (E0 : marshal_stage c s1 = s1) by (unfold marshal_stage; rewrite Ems, Hms; reflexivity).
+  rewrite E0. unfold body_now. rewrite (detect_stage_getbody detect c s1).
+  pose proof (frame_detect_stage detect c s1) as Hfr. unfold frame in Hfr.
+  assert (Hrd : r_reader (detect_stage detect c s1) = r_reader s1) by congruence.
+  rewrite Hrd, Eg, Er. reflexivity.
+Qed.
+
+(* a marshal body (SetBody with a struct / map): the XML rendering when the request's - else the
+   client's - content type says xml, the JSON rendering otherwise *)
+Theorem first_wire_marshal_body s m :
+  payload_forbid c (r_method s) = false -> c_form c = [] -> r_form s = [] -> r_ordered s = [] ->
+  r_marshal s = Some m ->
+  w_body (wire_of c (prepare detect c s)) =
+    Some (if is_xml_type (marshal_ct c (prep_header c s)) then snd m else fst m).
+Proof.
+  intros Hf Hcf Hrf Hod Hms. unfold wire_of. cbn [w_body]. unfold prepare.
+  set (s1 := prep_cookie c (prep_header c s)).
+  assert (H1 : r_method s1 = r_method s /\ r_form s1 = r_form s /\ r_ordered s1 = r_ordered s /\
+               r_marshal s1 = r_marshal s /\ marshal_ct c s1 = marshal_ct c (prep_header c s)).
+  { unfold s1, prep_cookie. destruct (nonempty (c_cookies c) && _); simp_r; repeat split. }
+  destruct H1 as (Em & Efm & Eo & Ems & Ect).
+  unfold prep_body, prep_body_gen. rewrite Em, Hf, Hcf. cbn [nonempty andb].
+  rewrite Eo, Hod, Efm, Hrf. cbn [nonempty].
+  unfold body_now. rewrite (detect_stage_getbody detect c (marshal_stage c s1)).
+  unfold marshal_stage. rewrite Ems, Hms, Ect.
+  destruct (nonempty (marshal_ct c (prep_header c s))) eqn:E.
+  - destruct (is_xml_type (marshal_ct c (prep_header c s))); reflexivity.
+  - simp_r. assert (Hx : is_xml_type (marshal_ct c (prep_header c s)) = false).
+    { destruct (marshal_ct c (prep_header c s)); [reflexivity|discriminate E]. }
+    rewrite Hx. reflexivity.
 Qed.
 
 (* ordered form data: the pairs in the caller's order, then the plain form data *)
@@ -183,7 +211,7 @@ Theorem first_wire_no_payload s :
   payload_forbid c (r_method s) = true -> w_body (wire_of c (prepare detect c s)) = None.
 Proof.
   intros Hf. unfold wire_of. cbn [w_body]. unfold prepare, prep_cookie, prep_header.
-  destruct s as [m rq h ck f q bd gb rd un at_ pa pp od]. simp_r. cbn [r_method] in Hf.
+  destruct s as [m rq h ck f q bd gb rd un at_ pa pp od ms]. simp_r. cbn [r_method] in Hf.
   unfold prep_body, prep_body_gen, body_now.
   destruct (nonempty (c_cookies c) && _); simp_r; rewrite Hf; reflexivity.
 Qed.
@@ -208,7 +236,7 @@ End RunProofs.
 (* ---------- the pinned code does not have these properties ---------- *)
 
 Definition ex_client : client := mkClient [] [(bs "a", bs "1")] [] [] true [].
-Definition ex_state : rstate := mkR (bs "POST") [] [] [] [] [] None GBNil [] false 0 [] [] [].
+Definition ex_state : rstate := mkR (bs "POST") [] [] [] [] [] None GBNil [] false 0 [] [] [] None.
 Definition ex_ropt : ropt := mkRopt 1 0 [] [].
 Definition ex_script : list ain := [mkAin (OErr 1 false) []; mkAin (OStatus 200) []].
 
